@@ -1638,12 +1638,12 @@ def run(out: Outcome) -> None:  # noqa: PLR0912, PLR0915
             problems = sorted(problems, key=lambda p: len(p.get("text", "")))
             for p in problems:
                 key = (p.get("grammar"), p.get("what"), p.get("implementation"))
-                p = {**p, "modes_affected": sorted({q.get("mode") for q in problems
-                                                    if (q.get("grammar"), q.get("what"), q.get("implementation")) == key
-                                                    and q.get("mode")})}
                 if key in seen:
                     continue
                 seen.add(key)
+                p = {**p, "modes_affected": sorted({q.get("mode") for q in problems
+                                                    if (q.get("grammar"), q.get("what"), q.get("implementation")) == key
+                                                    and q.get("mode")})}
                 text = p.get("text", "")
                 pay = {"kind": kind, **p, "seed": seed(), "command": "./check C17 --replay <this file>"}
                 if kind != "calc":
